@@ -291,6 +291,18 @@ fn dispatch_world<T>(world: &str, f_mix: impl FnOnce() -> T, f_one: impl FnOnce(
     }
 }
 
+/// Worlds handled outside `dispatch_world` (added later): evaluates `$e` with `$W` bound.
+macro_rules! solo_or {
+    ($world:expr, $W:ident => $e:expr, $else:expr) => {
+        if $world == "WSolo" {
+            type $W = vh::worlds::wsolo::WSolo;
+            $e
+        } else {
+            $else
+        }
+    };
+}
+
 #[cfg(feature = "wide")]
 type Wide = vh::worlds::wwide::WWide;
 #[cfg(not(feature = "wide"))]
@@ -307,7 +319,7 @@ fn main() {
     let code = match args[0].as_str() {
         "hist" => {
             let world = m.get("world").cloned().unwrap_or_else(|| "WMix".to_string());
-            dispatch_world(&world, || hist::<vh::worlds::wmix::WMix>(&m), || hist::<vh::worlds::wone::WOne>(&m), || hist::<Wide>(&m)).unwrap_or(3)
+            solo_or!(world, W => hist::<W>(&m), dispatch_world(&world, || hist::<vh::worlds::wmix::WMix>(&m), || hist::<vh::worlds::wone::WOne>(&m), || hist::<Wide>(&m)).unwrap_or(3))
         }
         "bmatrix" => {
             let world = m.get("world").cloned().unwrap_or_else(|| "WMix".to_string());
@@ -400,11 +412,11 @@ fn main() {
         }
         "c10" => {
             let world = m.get("world").cloned().unwrap_or_else(|| "WMix".to_string());
-            dispatch_world(&world, || c10::<vh::worlds::wmix::WMix>(&m), || c10::<vh::worlds::wone::WOne>(&m), || c10::<Wide>(&m)).unwrap_or(3)
+            solo_or!(world, W => c10::<W>(&m), dispatch_world(&world, || c10::<vh::worlds::wmix::WMix>(&m), || c10::<vh::worlds::wone::WOne>(&m), || c10::<Wide>(&m)).unwrap_or(3))
         }
         "conv" => {
             let world = m.get("world").cloned().unwrap_or_else(|| "WMix".to_string());
-            dispatch_world(&world, || conv::<vh::worlds::wmix::WMix>(&m), || conv::<vh::worlds::wone::WOne>(&m), || conv::<Wide>(&m)).unwrap_or(3)
+            solo_or!(world, W => conv::<W>(&m), dispatch_world(&world, || conv::<vh::worlds::wmix::WMix>(&m), || conv::<vh::worlds::wone::WOne>(&m), || conv::<Wide>(&m)).unwrap_or(3))
         }
         "conv-replay" => {
             let path = pos.first().expect("replay file");
@@ -422,7 +434,7 @@ fn main() {
                     lines.push(l.to_string());
                 }
             }
-            dispatch_world(&world, || conv_replay::<vh::worlds::wmix::WMix>(&lines, path), || conv_replay::<vh::worlds::wone::WOne>(&lines, path), || conv_replay::<Wide>(&lines, path)).unwrap_or(3)
+            solo_or!(world, W => conv_replay::<W>(&lines, path), dispatch_world(&world, || conv_replay::<vh::worlds::wmix::WMix>(&lines, path), || conv_replay::<vh::worlds::wone::WOne>(&lines, path), || conv_replay::<Wide>(&lines, path)).unwrap_or(3))
         }
         "replay" => {
             let prop = m.get("prop").expect("--prop").clone();
@@ -431,7 +443,7 @@ fn main() {
             match Case::from_text(&text) {
                 Ok(case) => {
                     let world = case.world.clone();
-                    dispatch_world(&world, || replay::<vh::worlds::wmix::WMix>(&prop, &case, path, &m), || replay::<vh::worlds::wone::WOne>(&prop, &case, path, &m), || replay::<Wide>(&prop, &case, path, &m)).unwrap_or(3)
+                    solo_or!(world, W => replay::<W>(&prop, &case, path, &m), dispatch_world(&world, || replay::<vh::worlds::wmix::WMix>(&prop, &case, path, &m), || replay::<vh::worlds::wone::WOne>(&prop, &case, path, &m), || replay::<Wide>(&prop, &case, path, &m)).unwrap_or(3))
                 }
                 Err(e) => {
                     eprintln!("cannot parse {}: {}", path, e);
